@@ -11,7 +11,7 @@ from ..util import call
 from ..report import short
 
 glom = env.bind()
-from glom import T, Path, PathAccessError, GlomError, Glommer, glom as G  # noqa: E402
+from glom import T, S, Path, PathAccessError, GlomError, Glommer, glom as G  # noqa: E402
 
 # "with the access registered for each intermediate value's type": a private Glommer whose `get` handlers for dict,
 # OrderedDict, list, tuple and object are logging wrappers of the default accesses.  Every plain segment must go
@@ -405,6 +405,186 @@ def virtual_types(col):
                               '%r: %r, expected %r' % (form, got, want), None)
 
 
+def dynamic_step_arguments(col, rng):
+    """T steps whose argument is itself a spec (`T[T['k0']]`, `T[S['rvk']]`): the argument is evaluated against the
+    call's target when - and only when - the walk reaches that step.  The root is a logging dict that holds the tree
+    and the keys, so the order of reads (tree segments and key lookups alike) is observable."""
+    def tree():
+        return gen.LogDict({'a': gen.LogDict({'b': gen.LogList([10, gen.LogDict({'c': 'deep'}), 12]), 'n': None}),
+                            'o': gen.LogObj(x=gen.LogDict({'p': 'q'}), y=gen.LogList(['y0', 'y1']))})
+    keys = {'k_b': 'b', 'k_c': 'c', 'k_p': 'p', 'i1': 1, 'im': -1, 'k_missing': BAD, 'i_far': 99}
+    # steps: ('P', seg) plain, ('[', arg) literal item, ('.', name), ('D', keyname) item whose key is T[keyname] of the root,
+    # ('DS', keyname) item whose key is S['rvk_<keyname>'] of the caller's scope
+    walks = [
+        [('P', 't'), ('P', 'a'), ('D', 'k_b'), ('D', 'i1'), ('D', 'k_c')],
+        [('P', 't'), ('P', 'a'), ('D', 'k_b'), ('D', 'im')],
+        [('P', 't'), ('P', 'o'), ('.', 'x'), ('D', 'k_p')],
+        [('P', 't'), ('P', 'o'), ('P', 'y'), ('D', 'i1')],
+        [('[', 't'), ('[', 'a'), ('D', 'k_b'), ('[', 1), ('D', 'k_c')],
+        [('P', 't'), ('P', 'a'), ('DS', 'k_b'), ('DS', 'i1'), ('D', 'k_c')],
+        # the dynamic key / index itself addresses nothing: that step is the failing one
+        [('P', 't'), ('P', 'a'), ('D', 'k_missing'), ('D', 'k_c')],
+        [('P', 't'), ('P', 'a'), ('D', 'k_b'), ('D', 'i_far'), ('D', 'k_c')],
+        # an earlier segment fails: the arguments of the later steps are never evaluated
+        [('P', 't'), ('P', BAD), ('D', 'k_b')],
+        [('P', 't'), ('P', 'a'), ('P', BAD), ('D', 'k_b'), ('D', 'i1')],
+        [('P', 't'), ('P', 'a'), ('P', 'n'), ('D', 'k_b')],
+        [('P', 't'), ('P', 'o'), ('.', BAD), ('D', 'k_p')],
+        [('P', 't'), ('P', 'o'), ('P', 'y'), ('P', '7'), ('D', 'k_c')],
+        [('[', 't'), ('[', BAD), ('D', 'k_b'), ('D', 'i1')],
+        [('P', 't'), ('P', 'a'), ('D', 'k_b'), ('P', '5'), ('D', 'k_c')],
+        [('P', BAD), ('D', 'k_b')],
+        [('P', 't'), ('P', BAD), ('DS', 'k_b'), ('D', 'i1')],
+    ]
+    scope = {'rvk_' + k: v for k, v in keys.items()}
+
+    def ref(root, steps):
+        cur = root
+        for k, (style, arg) in enumerate(steps):
+            try:
+                if style == 'D':
+                    arg = root[arg]
+                elif style == 'DS':
+                    arg = scope['rvk_' + arg]
+                if style == 'P':
+                    cur = ref_step(cur, 'P', arg)
+                elif style == '.':
+                    cur = getattr(cur, arg)
+                else:
+                    cur = cur[arg]
+            except (KeyError, IndexError, AttributeError, TypeError, ValueError) as e:
+                return ('pae', k, e)
+        return ('ok', cur)
+
+    def part(style, arg):
+        if style == 'P':
+            return arg
+        if style == '.':
+            return getattr(T, arg)
+        if style == 'D':
+            return T[T[arg]]
+        if style == 'DS':
+            return T[S['rvk_' + arg]]
+        return T[arg]
+
+    def spellings(steps):
+        parts = [part(s, a) for s, a in steps]
+        yield 'path', Path(*parts)
+        if len(parts) > 2:
+            yield 'nested', Path(Path(*parts[:2]), *parts[2:])
+            yield 'nested-last', Path(*(parts[:2] + [Path(*parts[2:])]))
+        t = T
+        for (s, a), p in zip(steps, parts):
+            if s == 'P':
+                if isinstance(a, str) and a.isdigit():
+                    return                       # a digit segment on a list is a plain-segment coercion, T would not coerce
+                t = t[a]
+            elif s == '.':
+                t = getattr(t, a)
+            elif s == 'D':
+                t = t[T[a]]
+            elif s == 'DS':
+                t = t[S['rvk_' + a]]
+            else:
+                t = t[a]
+        yield 'T', t
+
+    for steps in walks:
+        for sp, spec in spellings(steps):
+            for runner_name, runner in (('glom', G), ('Glommer', GL.glom)):
+                root = gen.LogDict(dict(keys, t=tree()))
+                log = []
+                gen.attach_log(root, log)
+                if sp == 'T':
+                    # in a pure T expression every step is an item / attribute access as written
+                    want_steps = [('[' if s == 'P' else s, a) for s, a in steps]
+                else:
+                    want_steps = steps
+                want = ref(root, want_steps)
+                ref_log = list(log)
+                del log[:]
+                uses_scope = any(s == 'DS' for s, _ in steps)
+                if uses_scope and runner_name == 'Glommer':
+                    continue                     # (Glommer.glom takes no scope= of the caller's)
+                got = call(runner, root, spec, scope=dict(scope)) if uses_scope else call(runner, root, spec)
+                got_log = list(log)
+                col.case(('dynamic-arguments', tuple(s for s, _ in steps), sp, runner_name, want[0]), True)
+                col.count('dynamic_argument_cases')
+                col.count('accesses_logged', len(got_log))
+                col.count('valid_paths' if want[0] == 'ok' else 'failing_paths')
+                wit = {'spec': short(spec), 'target': short(root, 400), 'through': runner_name}
+                tag = ':dynamic-step-argument'
+                if want[0] == 'ok':
+                    if not got.ok:
+                        col.violation('C01/valid-path-raises' + tag, '%s on %s: reference reaches %s, %s raised %r'
+                                      % (short(spec), short(root), short(want[1]), runner_name, got.exc), wit)
+                    elif got.value is not want[1]:
+                        col.violation('C01/result-not-the-addressed-object' + tag, '%s on %s: reference reaches %s, %s returned %s'
+                                      % (short(spec), short(root), short(want[1]), runner_name, short(got.value)), wit)
+                else:
+                    _, k, e = want
+                    if got.ok:
+                        col.violation('C01/bad-segment-swallowed' + tag, '%s on %s: segment %d fails with %r, %s returned %s'
+                                      % (short(spec), short(root), k, e, runner_name, short(got.value)), wit)
+                    elif not isinstance(got.exc, PathAccessError):
+                        col.violation('C01/not-a-PathAccessError' + tag, '%s: segment %d fails with %r, %s raised %r'
+                                      % (short(spec), k, e, runner_name, got.exc), wit)
+                    else:
+                        if got.exc.part_idx != k:
+                            col.violation('C01/wrong-part-index' + tag, '%s on %s: first bad segment is %d (%r), part_idx = %r (%r)'
+                                          % (short(spec), short(root), k, e, got.exc.part_idx, got.exc), wit)
+                        if type(got.exc.exc) is not type(e) or got.exc.exc.args != e.args:
+                            col.violation('C01/wrong-underlying-exception' + tag, '%s: underlying %r, PathAccessError.exc = %r'
+                                          % (short(spec), e, got.exc.exc), wit)
+                if got_log != ref_log:
+                    extra = 'touched-after-failure' if want[0] != 'ok' and len(got_log) > len(ref_log) else 'access-log-differs'
+                    col.violation('C01/' + extra + tag, '%s on %s through %s: reference accesses %s, glom accesses %s'
+                                  % (short(spec), short(root), runner_name, _fmt_log(ref_log), _fmt_log(got_log)), wit)
+
+
+def registries_are_separate_along_a_path(col):
+    """"the access registered for each intermediate value's type" is the one of the registry in force: a type registered
+    on one Glommer is an ordinary attribute object for every other Glommer (idle, busy, or created afterwards) and for
+    glom() itself"""
+    class Node:
+        def __init__(self, name, **kids):
+            self.name = name
+            self.kids = kids
+            self.__dict__.update(kids)
+
+    class SubNode(Node):
+        pass
+
+    def mk():
+        return {'tree': Node('root', kid=SubNode('k1', x=Node('leaf'))), 'nodes': [Node('n0'), SubNode('n1', x=[5, 6])]}
+
+    def tagged(o, k):
+        return ('custom', getattr(o, k))
+    cases = [('tree.name', ('ok', 'root')), ('tree.kid.x.name', ('ok', 'leaf')), (Path('nodes', -1, 'x', 0), ('ok', 5)),
+             ('tree.kid.nope', ('pae', 2)), (Path('nodes', 1, 'name', 'nope'), ('pae', 3)), ('tree.zz.x', ('pae', 1))]
+    busy, idle, custom = Glommer(), Glommer(), Glommer()
+    for spec, _ in cases:
+        call(busy.glom, mk(), spec)
+    custom.register(Node, get=tagged)
+    fresh = Glommer()
+    got_custom = call(custom.glom, mk(), 'tree.name')
+    col.case(('registries-separate', 'custom-sees-its-own'), True)
+    if not (got_custom.ok and got_custom.value == ('custom', 'root')):
+        col.violation('C01/registered-get-handler-not-used:own-registration', 'Glommer with Node registered: %r' % (got_custom,), None)
+    for name, runner in (('busy', busy.glom), ('idle', idle.glom), ('created-afterwards', fresh.glom), ('glom', G)):
+        for spec, want in cases:
+            got = call(runner, mk(), spec)
+            col.case(('registries-separate', name, short(spec)), True)
+            col.count('valid_paths' if want[0] == 'ok' else 'failing_paths')
+            if want[0] == 'ok':
+                ok = got.ok and got.value == want[1]
+            else:
+                ok = (not got.ok) and isinstance(got.exc, PathAccessError) and got.exc.part_idx == want[1]
+            if not ok:
+                col.violation('C01/registration-on-another-Glommer-changes-a-walk:' + name,
+                              'after other_glommer.register(Node, get=...), %s of %r gives %r, expected %r' % (name, spec, got, want), None)
+
+
 def run(ctx):
     col, rng = ctx.col, ctx.rng
     col.require('valid_paths', 200)
@@ -414,5 +594,7 @@ def run(ctx):
     if ctx.shard == 0:
         systematic(col, rng)
         virtual_types(col)
+        dynamic_step_arguments(col, rng)
+        registries_are_separate_along_a_path(col)
     for i in range(ctx.n(500, 4000)):
         one_target(col, rng, 12)
